@@ -9,7 +9,7 @@
 (***************************************************************************)
 EXTENDS IfaceDerive
 
-CONSTANTS Profile   \* "parse" (anything the grammar accepts) | "wrap" (restricted to what both generators accept)
+CONSTANTS Profile   \* "parse" (anything the grammar accepts) | "exec" (compilable against a rendered library) | "call"
 
 Pick(S) == RandomElement(S)
 Pct(u) == RandomElement(1..100)   \* NB: an operator *with* a parameter: TLC evaluates zero-arity definitions once
@@ -39,7 +39,11 @@ BasicPool      == {"void", "bool", "unsigned char", "char", "int", "size_t", "do
 ValueBasicPool == BasicPool \ {"void"}
 BinOps         == OperatorSyms \ {"()", "[]"}
 
-Exec == Profile = "exec"
+\* "call": the exec profile narrowed to modules whose bindings can be CALLED from Python against a rendered, instrumented
+\* library (C04 executed half): parameter / return / property types are basic, string, template parameters or classes
+\* declared earlier in the module; bases are declared classes; every class starts with a constructor
+Call == Profile = "call"
+Exec == Profile \in {"exec", "call"}
 LibTypes == {<<"Key">>, <<"gtsam", "Pose3">>, <<"gtsam", "Point3">>, <<"lib", "geo", "Shape">>, <<"Vector">>}
 LibTemplates == {<<"lib", "Seq">>, <<"lib", "Box">>}   \* (std::vector rejects const / reference element types)
 \* a literal that initialises a value of the given basic type
@@ -56,11 +60,12 @@ RandPlainExec(ctx, allowVoid) ==
   IF r <= 30 THEN Ty(<<Pick(IF allowVoid THEN BasicPool ELSE ValueBasicPool)>>, <<>>, RandConst(0), IF Pct(0) <= 70 THEN "" ELSE "&", TRUE)
   ELSE IF r <= 35 THEN Ty(<<"string">>, <<>>, RandConst(0), IF Pct(0) <= 60 THEN "" ELSE "&", FALSE)     \* no smart pointers to converted types
   ELSE IF r <= 50 /\ ctx.tparams # {} THEN Ty(<<Pick(ctx.tparams)>>, <<>>, RandConst(0), RandQual(0), FALSE)
-  ELSE IF r <= 56 /\ ctx.tparams # {} THEN Ty(<<Pick(ctx.tparams), Pick(ScopedPool)>>, <<>>, RandConst(0), Pick({"", "&"}), FALSE)
+  ELSE IF r <= 56 /\ ctx.tparams # {} /\ ~Call THEN Ty(<<Pick(ctx.tparams), Pick(ScopedPool)>>, <<>>, RandConst(0), Pick({"", "&"}), FALSE)
   ELSE IF r <= 64 /\ ctx.cls # "" THEN Ty(<<"This">>, <<>>, RandConst(0), RandQual(0), FALSE)
-  ELSE IF r <= 68 /\ ctx.cls # "" THEN Ty(<<"This", Pick(ScopedPool)>>, <<>>, RandConst(0), Pick({"", "&"}), FALSE)
-  ELSE IF r <= 80 /\ Len(declared) > 0
+  ELSE IF r <= 68 /\ ctx.cls # "" /\ ~Call THEN Ty(<<"This", Pick(ScopedPool)>>, <<>>, RandConst(0), Pick({"", "&"}), FALSE)
+  ELSE IF (r <= 80 \/ Call) /\ Len(declared) > 0
   THEN Ty(ctx.nspath \o <<declared[Pick(1..Len(declared))].name>>, <<>>, RandConst(0), RandQual(0), FALSE)
+  ELSE IF Call THEN Ty(<<Pick(ValueBasicPool)>>, <<>>, RandConst(0), IF Pct(0) <= 70 THEN "" ELSE "&", TRUE)
   ELSE Ty(Pick(LibTypes), <<>>, RandConst(0), RandQual(0), FALSE)
 
 RandPlain(ctx, allowVoid) ==
@@ -76,7 +81,7 @@ RandPlain(ctx, allowVoid) ==
 
 RECURSIVE RandType(_, _)
 RandType(ctx, d) ==
-  IF d = 0 \/ Pct(0) <= 65 THEN RandPlain(ctx, FALSE)
+  IF d = 0 \/ Call \/ Pct(0) <= 65 THEN RandPlain(ctx, FALSE)
   ELSE LET n == IF Pct(0) <= 70 THEN 1 ELSE 2
        IN IF Exec THEN Ty(Pick(LibTemplates), <<RandType(ctx, d - 1)>>, RandConst(0), RandQual(0), FALSE)
           ELSE Ty(Pick(TemplNamePool), [i \in 1..n |-> RandType(ctx, d - 1)], RandConst(0), RandQual(0), FALSE)
@@ -137,7 +142,10 @@ RandTmpl(ctx, withLists) ==
       p1 == Pick(avail)
       p2 == Pick(avail \ {p1})
       ExecArgs == {TN(q, <<>>) : q \in LibTypes} \cup {TN(<<"lib", "Seq">>, <<TN(<<"gtsam", "Pose3">>, <<>>)>>), TN(<<"lib", "Box">>, <<TN(<<"Key">>, <<>>)>>)}
+      declared == SelectSeq(ctx.items, LAMBDA d : d.k = "class" /\ d.tmpl = <<>>)
+      CallArgs == {TN(ctx.nspath \o <<declared[j].name>>, <<>>) : j \in 1..Len(declared)}
       lst(i) == IF ~withLists THEN <<>>
+                ELSE IF Call /\ CallArgs # {} THEN RandDistinct(CallArgs, Pick(1..(IF Cardinality(CallArgs) > 2 THEN 2 ELSE Cardinality(CallArgs))))
                 ELSE IF Exec THEN RandDistinct(ExecArgs, Pick(1..3))            \* (a repeated argument would instantiate the same class twice)
                 ELSE [j \in 1..Pick(1..3) |-> RandTypename(1)]
   IN IF avail = {} THEN <<>>
@@ -158,7 +166,7 @@ RandEnumU(k) == LET e == RandEnum(TRUE) IN [e EXCEPT !.name = Uniq(e.name, k),
                                                           !.enumerators = [i \in 1..Len(e.enumerators) |-> Uniq(e.enumerators[i], k)]]
 
 RandMember(ctx) ==
-  LET r == Pct(0) IN
+  LET r == IF Call /\ ctx.nmembers = 0 THEN 1 ELSE Pct(0) IN
   IF r <= 18 THEN
        LET tm == IF Pct(0) <= 20 THEN RandTmpl(ctx, TRUE) ELSE <<>>
        IN IF Exec THEN Ctor(ctx.cls, <<>>, RandArgsN(ctx, IF ctx.nmembers > 4 THEN 4 ELSE ctx.nmembers))
@@ -204,7 +212,10 @@ RandClassHdr(ctx) ==
       ebase == IF Len(declared) > 0 /\ Pct(0) <= 60 THEN TN(ctx.nspath \o <<declared[Pick(1..Len(declared))].name>>, <<>>)
                ELSE IF Pct(0) <= 50 THEN TN(<<"lib", "Box">>, <<IF tm # <<>> THEN TN(<<tm[1].name>>, <<>>) ELSE TN(<<"double">>, <<>>)>>)
                ELSE TN(<<"lib", "geo", "Shape">>, <<>>)
-  IN IF Exec THEN ClassN(Uniq(Pick(ClassNamePool), ctx.cnt), tm, Pct(0) <= 40, hasbase, IF hasbase THEN ebase ELSE NoType, <<>>)
+      cbase == Len(declared) > 0 /\ hasbase
+  IN IF Call THEN ClassN(Uniq(Pick(ClassNamePool), ctx.cnt), tm, Pct(0) <= 40, cbase,
+                         IF cbase THEN TN(ctx.nspath \o <<declared[Pick(1..Len(declared))].name>>, <<>>) ELSE NoType, <<>>)
+     ELSE IF Exec THEN ClassN(Uniq(Pick(ClassNamePool), ctx.cnt), tm, Pct(0) <= 40, hasbase, IF hasbase THEN ebase ELSE NoType, <<>>)
      ELSE ClassN(Pick(ClassNamePool), tm, Pct(0) <= 40, hasbase, IF hasbase THEN base ELSE NoType, <<>>)
 
 RandLeaf(ctx) ==
@@ -223,19 +234,21 @@ RandLeaf(ctx) ==
        ELSE IF Pct(0) <= 25 /\ ~Exec
        THEN Typedef(TN(Pick(NsPathPool) \o <<Pick(ClassNamePool)>>, [i \in 1..Pick(1..2) |-> RandTypename(1)]),
                     Pick(ClassNamePool))
-       ELSE IF Exec THEN RandEnumU(ctx.cnt) ELSE Include(Pick(HeaderPool))
+       ELSE IF Exec /\ ~Call THEN RandEnumU(ctx.cnt)
+       ELSE IF Call THEN Func(Uniq(Pick(FuncNamePool), ctx.cnt), <<>>, RandRet(ctx), RandArgs(ctx, 3))
+       ELSE Include(Pick(HeaderPool))
   ELSE IF r <= 65 THEN
        LET tm == IF Pct(0) <= 25 THEN RandTmpl(ctx, TRUE) ELSE <<>>
            c2 == WithParams(ctx, tm)
        IN Func(Uniq(Pick(FuncNamePool), ctx.cnt), tm, RandRet(c2), RandArgs(c2, 3))
-  ELSE IF r <= 80 THEN RandEnumU(ctx.cnt)
+  ELSE IF r <= (IF Call THEN 70 ELSE 80) THEN RandEnumU(ctx.cnt)
   ELSE IF Exec THEN LET b == Pick(ValueBasicPool) hd == Pct(0) <= 50 IN
                     Var(Ty(<<b>>, <<>>, TRUE, "", TRUE), Uniq(Pick(VarNamePool), ctx.cnt), hd, IF hd THEN LiteralFor(b) ELSE "")
   ELSE LET hd == Pct(0) <= 50 IN Var(RandType(ctx, 1), Pick(VarNamePool), hd, IF hd THEN RandDefault(0) ELSE "")
 
 \* ---- the choice operators handed to IfaceDerive (singletons; empty when the step should not happen)
 SimNsChoices(ctx)     == IF Pct(0) <= 25 THEN {Pick(NsNamePool)} ELSE {}
-SimClassChoices(ctx)  == IF Pct(0) <= 45 THEN {RandClassHdr(ctx)} ELSE {}
+SimClassChoices(ctx)  == IF Pct(0) <= (IF Call THEN 75 ELSE 45) THEN {RandClassHdr(ctx)} ELSE {}
 SimMemberChoices(ctx) == {RandMember(ctx), RandMember(ctx), RandMember(ctx)}
 SimLeafChoices(ctx)   == {RandLeaf(ctx), RandLeaf(ctx)}
 =============================================================================
